@@ -197,6 +197,7 @@ package hessian
 
 //@ func getStringLen
 //@   assigns @pos, @E, @declared
+//@   sets @chunktag = tag
 //@   let short  = tag <= 0x1f
 //@   let middle = 0x30 <= tag && tag <= 0x33
 //@   let chunk  = tag == 'R' || tag == 'S'
@@ -211,6 +212,7 @@ package hessian
 
 //@ func getBinaryLen
 //@   assigns @pos, @E, @declared
+//@   sets @chunktag = tag
 //@   let short  = G.isBinShort(tag)
 //@   let mid    = G.isBinMid(tag)
 //@   let fits   = short || (mid && old(@pos) + 1 <= len(@in)) || (!mid && old(@pos) + 2 <= len(@in))
@@ -238,8 +240,10 @@ package hessian
 //@ func decodeStringValue
 //@   requires flag == -1 || (0 <= flag && flag <= 255)
 //@   assigns @pos, @E, @declared, @lastreader
+//@   atcall readTag [C03,C06,C09:str-next-chunk-only-after-nonfinal] !(@chunktag == 'S' || @chunktag <= 0x1f || (0x30 <= @chunktag && @chunktag <= 0x33))
 //@   sets @lastreader = 10
 //@   loop 1 invariant [C03,C09:str-chunk-own-length] len(buf) == @declared
+//@   loop 1 invariant [C03,C06:str-chunk-tag-current] tag == @chunktag
 //@   loop 1 invariant [C14,C06:str-consumes] flag == -1 ==> @pos >= old(@pos) + 1
 //@   loop 1 decreases len(@in) - @pos
 //@   ensures [C14,C06:str-consumes] flag == -1 && err == nil ==> @pos >= old(@pos) + 1
@@ -248,7 +252,9 @@ package hessian
 //@ func decodeBinaryValue
 //@   requires flag == -1 || (0 <= flag && flag <= 255)
 //@   assigns @pos, @E, @declared, @lastreader
+//@   atcall readTag [C03,C06,C09:bin-next-chunk-only-after-nonfinal] !G.isBinFinal(@chunktag)
 //@   sets @lastreader = 9
 //@   loop 1 invariant [C03,C09:bin-chunk-own-length] len(buf) == @declared
+//@   loop 1 invariant [C03,C06:bin-chunk-tag-current] tag == @chunktag
 //@   loop 1 decreases len(@in) - @pos
 //@   proves [C03,C06:bin-ends-at-final-chunk] err == nil && @pos < len(@in) ==> G.isBinFinal(tag)
